@@ -451,39 +451,81 @@ func (e *provEnv) computeFresh() {
 // parameters I only", grown from no summaries (a function without a summary is
 // treated as returning memory of any pointerful argument).
 func (e *provEnv) computeRetParams() {
-	for changed := true; changed; {
-		changed = false
-		for _, f := range e.p.Funcs {
-			if _, done := e.retParams[f]; done || e.fresh[f] || f.Signature.Results().Len() == 0 || f.Blocks == nil {
-				continue
+	failed := map[*ssa.Function]bool{}
+	// callees whose summary is still pending: a function is summarised only after them (otherwise the
+	// conservative "may alias any pointerful argument" stands in for the callee and is frozen into the summary,
+	// which made the result depend on the iteration order)
+	pending := func(f *ssa.Function, strict bool) bool {
+		if !strict {
+			return false
+		}
+		wait := false
+		eachCall(f, func(ci ssa.CallInstruction) {
+			cal := staticCallee(ci)
+			if cal == nil || cal == f || cal.Blocks == nil || !e.p.InRepo(cal) || cal.Signature.Results().Len() == 0 {
+				return
 			}
-			e.memo = map[ssa.Value]*provInfo{}
-			set := map[int]bool{}
-			ok := len(returnsOf(f)) > 0
-			for _, r := range returnsOf(f) {
-				for _, rv := range r.Results {
-					if !hasPointers(rv.Type()) {
-						continue
-					}
-					for b := range e.of(rv).bases {
-						switch b.kind {
-						case bkFresh:
-						case bkParam:
-							idx := paramIndex(f, b.param)
-							if idx < 0 {
+			if _, done := e.retParams[cal]; done || e.fresh[cal] || failed[cal] {
+				return
+			}
+			pointerful := false
+			for i := 0; i < cal.Signature.Results().Len(); i++ {
+				if hasPointers(cal.Signature.Results().At(i).Type()) {
+					pointerful = true
+				}
+			}
+			if pointerful {
+				wait = true
+			}
+		})
+		return wait
+	}
+	for _, strict := range []bool{true, false} {
+		for changed := true; changed; {
+			changed = false
+			for _, f := range e.p.Funcs {
+				if _, done := e.retParams[f]; done || failed[f] || e.fresh[f] || f.Signature.Results().Len() == 0 || f.Blocks == nil {
+					continue
+				}
+				if pending(f, strict) {
+					continue
+				}
+				e.memo = map[ssa.Value]*provInfo{}
+				set := map[int]bool{}
+				ok := len(returnsOf(f)) > 0
+				for _, r := range returnsOf(f) {
+					for _, rv := range r.Results {
+						if !hasPointers(rv.Type()) {
+							continue
+						}
+						for b := range e.of(rv).bases {
+							switch b.kind {
+							case bkFresh:
+							case bkParam:
+								idx := paramIndex(f, b.param)
+								if idx < 0 {
+									ok = false
+								}
+								set[idx] = true
+							default:
 								ok = false
 							}
-							set[idx] = true
-						default:
-							ok = false
 						}
 					}
 				}
-			}
-			if ok {
-				e.retParams[f] = set
+				if ok {
+					e.retParams[f] = set
+				} else if strict {
+					failed[f] = true
+				} else {
+					continue
+				}
 				changed = true
 			}
+		}
+		if strict {
+			// functions that failed only because of a cycle get a second, non-strict chance
+			failed = map[*ssa.Function]bool{}
 		}
 	}
 	e.memo = map[ssa.Value]*provInfo{}
